@@ -286,6 +286,11 @@ def _is_new_param(fi, name):
     return known is not None and name not in known["params"]
 
 
+def _api_snapshot():
+    _is_new_param(None, "")
+    return _API_SNAPSHOT
+
+
 def _documented_not_none(fi, name):
     """True if, at the pinned commit, the parameter existed and its default was not None (the documented calls pass a value)"""
     _is_new_param(fi, name)
@@ -327,6 +332,9 @@ class Interp:
         self.keep_astype = False                   # keep x.astype(t) visible in value forms instead of treating it as the identity
         self.unroll_literal_loops = True           # execute `for row in <literal table>` row by row instead of abstracting the loop
         self.stop_at_calls: set = set()            # dotted callee names at which a top-level path is cut (counts as a return)
+        self._leaf_cache = {}
+        self.tag_draws = False                     # number the random draws so that two calls with equal arguments stay two values
+        self._draws = 0
         self.domain_pred = None                    # optional callable(callee, [arg values]) -> True / False / None: a predicate decided by the property's domain
         self.domain_sign = None                    # optional callable(Form) -> +1 / -1 / 0 / None: sign of a difference known from the property's domain
         self.falsy_arith: list = []                # (fi, node, operand, depth): arithmetic on a value assumed falsy (absent optional parameter)
@@ -810,6 +818,12 @@ class Interp:
             for k, v in d0.items():
                 if all(getattr(b.facts, attr).get(k, _MISSING) == v for b in live[1:]):
                     out[k] = v
+                elif attr == "notinst" and all(isinstance(getattr(b.facts, attr).get(k), frozenset) for b in live[1:]):
+                    common = v
+                    for b in live[1:]:
+                        common = common & getattr(b.facts, attr)[k]
+                    if common:
+                        out[k] = common        # not an instance of these on either path
             setattr(f, attr, out)
         st.facts = f
         # conds: common prefix
@@ -1519,6 +1533,8 @@ class Interp:
             tn = type(v.v).__name__
             if tn in classes or ("builtins." + tn) in classes:
                 return True
+            if v.v is None:
+                return True if any(c.split(".")[-1].lstrip("?") in ("object", "NoneType") for c in classes) else False     # None is an instance of nothing else, whatever the other names are
             if tn == "bool" and any(c in classes for c in _TOWER["int"]):
                 return True  # bool is a subclass of int
             return None if unknown else False
@@ -2317,11 +2333,24 @@ class Interp:
             if name in ("float", "complex", "numpy.float64") and isinstance(args[0], Const):
                 return mk_fn(name, [args[0]])
             v = args[0]
+            if name.startswith("numpy.") and isinstance(v, Form):
+                v = _elements_of(v, lambda inner: self._isinstance(inner, ["str"], st) is False)      # np.asarray(list(x)) holds the elements of x - unless x is text (list('101') splits it)
             if isinstance(v, TupleV) and name.startswith("numpy."):
                 if v.items and len(v.items) <= 8 and all(isinstance(i, Form) for i in v.items):
                     return VecV(v.items)
                 return mk_fn("array", [v])
             return v
+        if name == "re.sub" and len(args) == 3 and not kwargs and all(isinstance(a_, Const) and isinstance(a_.v, str) for a_ in args):
+            import re as _re
+            try:
+                return Const(_re.sub(args[0].v, args[1].v, args[2].v))      # a pure function of three constants (option spelling normalised)
+            except Exception:
+                pass
+        if name in ("numpy.ndim", "numpy.size", "numpy.shape") and len(args) == 1 and not kwargs and isinstance(args[0], (Form, ObjV)):
+            try:
+                return self.getattr(args[0], name.split(".")[1], st, fi)      # np.ndim(x) is x.ndim for anything that has axes
+            except Exception:
+                pass
         if name == "numpy.flatnonzero" and len(args) == 1 and not kwargs:
             return mk_idx(mk_fn("where", [as_value(args[0])]), Form.num(0))       # flatnonzero(c) is where(c)[0] for the 1-D arrays it is applied to
         if name == "functools.reduce" and 2 <= len(args) <= 3 and not kwargs and isinstance(args[1], TupleV) and (args[1].items or len(args) == 3):
@@ -2355,6 +2384,11 @@ class Interp:
                 if last != name.rsplit(".", 1)[1]:
                     short = name.rsplit(".", 1)[0] + "." + last if short == name else last
                 args, kwargs = cargs, ckw
+        if self.tag_draws and name.startswith("numpy.random.") and name.rsplit(".", 1)[1] in ("normal", "standard_normal", "randn", "rand", "random", "uniform", "random_sample"):
+            # two draws are two values even when their arguments agree: number them (sigma1*randn(N) + sigma2*randn(N) has two noise terms)
+            self._draws += 1
+            kwargs = dict(kwargs)
+            kwargs["draw"] = Form.num(self._draws)
         return mk_fn(short, [as_value(a) for a in args], [(k, as_value(v)) for k, v in kwargs.items()])
 
     def _call_value(self, fv, args, kwargs, st, fi, depth, n, rec):
@@ -2464,8 +2498,22 @@ class Interp:
             return ObjV(cls, fields, n)
         return ObjV(cls, {"__args__": TupleV(args)}, n)
 
+    def _is_leaf(self, callee: FuncInfo):
+        """a helper that calls no other function of the package (argument normalisers, unit conversions): reading it costs one level"""
+        c = self._leaf_cache.get(callee.qualname)
+        if c is None:
+            c = True
+            for n_ in ast.walk(callee.node):
+                if isinstance(n_, ast.Call):
+                    r_ = self.pkg.resolve_expr(callee.module, callee, n_.func)
+                    if r_ is not None and r_.startswith(PKG + ".") and r_.split(".")[1] in self.pkg.modules and r_.split(".")[-1] not in ("tic", "toc"):
+                        c = False
+                        break
+            self._leaf_cache[callee.qualname] = c
+        return c
+
     def _should_inline(self, callee: FuncInfo, depth):
-        if not self.inline or depth >= self.MAX_DEPTH:
+        if not self.inline or depth >= self.MAX_DEPTH + 2 or (depth >= self.MAX_DEPTH and not self._is_leaf(callee)):
             return False
         if callee.qualname in self.no_inline or callee.name in self.no_inline:
             return False
@@ -2625,6 +2673,8 @@ class Interp:
                 return mk_fn("strjoin", [base, as_value(args[0])])
             if attr in ("startswith", "endswith") and args and isinstance(args[0], Const):
                 return Const(getattr(base.v, attr)(args[0].v))
+            if attr == "replace" and len(args) == 2 and all(isinstance(a_, Const) and isinstance(a_.v, str) for a_ in args):
+                return Const(base.v.replace(args[0].v, args[1].v))
         if isinstance(base, TupleV) and base.kind == "list" and attr == "append" and args:
             base.items.append(args[0])
             return NONE
@@ -2826,10 +2876,36 @@ def _full_slice(i):
     return isinstance(i, SliceV) and all(isinstance(x, Const) and x.v is None for x in (i.lo, i.hi, i.step))
 
 
+def _elements_of(v, not_text, depth=0):
+    """the value as an array of its elements: list(x) / tuple(x) of an array-like is x; a merge of alternatives that all hold the same
+    elements is that one value"""
+    if not isinstance(v, Form) or depth > 4:
+        return v
+    a = v.single_atom()
+    if a is None:
+        return v
+    if a[0] == "fn" and a[1] in ("list", "tuple") and len(a[2]) == 1 and not a[3] and isinstance(a[2][0], Form) and not_text(a[2][0]):
+        return _elements_of(a[2][0], not_text, depth + 1)
+    if a[0] == "phi" and a[2]:
+        alts = [_elements_of(x, not_text, depth + 1) for x in a[2]]
+        if all(isinstance(x, Form) and x == alts[0] for x in alts):
+            return alts[0]
+    return v
+
+
 def _literal_like(g, resolve=None):
     """module-level value that is safe to evaluate symbolically: literals, containers of them, names, attribute paths,
     arithmetic, lambdas; no calls except pure numeric helpers"""
-    for n in ast.walk(g):
+    def walk_now(node):
+        # what is evaluated when the module is imported: the body of a lambda is not (only its argument defaults are)
+        yield node
+        if isinstance(node, ast.Lambda):
+            for d in list(node.args.defaults) + [k for k in node.args.kw_defaults if k is not None]:
+                yield from walk_now(d)
+            return
+        for ch in ast.iter_child_nodes(node):
+            yield from walk_now(ch)
+    for n in walk_now(g):
         if isinstance(n, ast.Call):
             f = n.func
             nm = f.attr if isinstance(f, ast.Attribute) else (f.id if isinstance(f, ast.Name) else "")
